@@ -1,6 +1,7 @@
 import Gaftools.Props.C03
 import Gaftools.Props.TieA
 import Gaftools.Props.Glue
+import Gaftools.Props.Glue2
 #print axioms Gaftools.C03.recNodes_iff
 #print axioms Gaftools.C03.index_exact
 #print axioms Gaftools.C03.specIndex_model
@@ -12,3 +13,4 @@ import Gaftools.Props.Glue
 #print axioms Gaftools.TieA.isStable_gen_eq_model
 #print axioms Gaftools.Glue.infos_readGraph
 #print axioms Gaftools.Glue.reference_eq
+#print axioms Gaftools.Glue.goodGraph_of_valid
